@@ -35,7 +35,10 @@ RULE = (
     "terminator needs), raises BudgetExceeded(BaseException). Oracle: subscribe() returns without BudgetExceeded / "
     "RecursionError, the subscriber got on_completed (and the element count the terminator implies), at most "
     "2 pulls happen after the subscriber's terminal, and the pull counter stays frozen after disposing and flushing "
-    "the trampolines. Non-trivial: the terminator needs >= 1 source element. Distinct = distinct case JSON."
+    "the trampolines. For about a quarter of the shapes the SAME pipeline object is subscribed a second and third "
+    "time after the previous subscription returned (fresh counter/budget and fresh harness predicates per subscription; "
+    "from_iterable gets a re-iterable counting iterable) and each subscription must satisfy the same oracle; a failure "
+    "of a later subscription carries the suffix ':2nd-subscription' / ':3rd-subscription'. Non-trivial: the terminator needs >= 1 source element. Distinct = distinct case JSON."
 )
 ASSUMPTIONS = [
     "single thread, real CurrentThread/Immediate schedulers (no virtual time); partner sources (of, never) are finite or silent",
@@ -193,18 +196,22 @@ class Budget:
             self.tripped = True
             raise BudgetExceeded()
 
+    def reset(self):
+        self.n = 0
+        self.tripped = False
+
+
+_RESETS = []  # reset functions of the harness' own stateful callbacks (cleared per case, run before every subscription)
+
 
 class CountingCount:
+    """Re-iterable infinite iterable: every subscription iterates a fresh counting count()."""
+
     def __init__(self, bud):
         self.bud = bud
-        self.it = itertools.count()
 
     def __iter__(self):
-        return self
-
-    def __next__(self):
-        self.bud.pull()
-        return next(self.it)
+        return _CountingIter(self.bud, itertools.count())
 
 
 class _CountingIter:
@@ -259,6 +266,7 @@ def _nth(j):
         c[0] += 1
         return c[0] >= j
 
+    _RESETS.append(lambda: c.__setitem__(0, 0))
     return pred
 
 
@@ -332,6 +340,7 @@ def _ew(op):
             c[0] += 1
             return c[0] % 2 == 1
 
+        _RESETS.append(lambda: c.__setitem__(0, 0))
         return ops.filter(alt)
     if k == "filter_indexed":
         return ops.filter_indexed(lambda x, i: i % 2 == 0)
@@ -431,6 +440,8 @@ def _term(t, s):
                 c[0] = True
                 trig.on_next(0)
 
+        _RESETS.append(lambda: c.__setitem__(0, False))
+
         return s.pipe(ops.do_action(fire), ops.take_until(trig)), a, a - 1
     if k == "take_until_now":
 
@@ -526,7 +537,28 @@ def _run_inner(case):
         n_src = n
     need = _need_through(case["ew"], n_src)
     bud = Budget(50 * need + 1000)
+    del _RESETS[:]
     o, sub_s, explicit, emits = _patched_build(case, bud)
+    resets = list(_RESETS)
+    resub = int(case.get("resub") or 0)
+    cls = [f"src={src}", f"cfg={cfg}", f"wrap={case['wrap']}", f"term={term[0]}", f"ew={len(case['ew'])}", f"resub={resub}"]
+    for k in range(1 + resub):
+        # the SAME pipeline object is subscribed again after the previous subscription returned; every subscription
+        # gets a fresh pull counter / budget and fresh harness predicates, and must satisfy the same oracle
+        bud.reset()
+        for f in resets:
+            f()
+        res = _one_subscription(case, o, sub_s, explicit, emits, bud, need, n, cls, k)
+        if res is not None:
+            return res
+    return OK(n >= 1, cls)
+
+
+_ORD = {1: "2nd", 2: "3rd"}
+
+
+def _one_subscription(case, o, sub_s, explicit, emits, bud, need, n, cls, k):
+    src, cfg, term = case["src"], case["cfg"], case["term"]
     rec = Rec(bud)
     status = "returned"
     d = None
@@ -537,7 +569,6 @@ def _run_inner(case):
     except RecursionError:
         status = "recursion"
     pulls_ret = bud.n
-    cls = [f"src={src}", f"cfg={cfg}", f"wrap={case['wrap']}", f"term={term[0]}", f"ew={len(case['ew'])}"]
     termev = rec.terminal()
     n_out = sum(1 for e in rec.ev if e[0] == "N")
     symptom = None
@@ -583,11 +614,13 @@ def _run_inner(case):
         symptom += "+overrun"
     if symptom is None:
         cls.append(f"post-terminal-pulls={pulls_ret - termev[1]}")
-        return OK(n >= 1, cls)
+        if k:
+            cls.append("resubscription-held")
+        return None
     cls.append("symptom=" + symptom)
     detail = (
-        f"{symptom}: pulls={bud.n} budget={bud.limit} need={need} outputs={n_out} (expected {emits}) "
-        f"terminal={termev} pulls_at_return={pulls_ret} case={case}"
+        f"{symptom} (subscription #{k + 1} of the same pipeline object): pulls={bud.n} budget={bud.limit} need={need} "
+        f"outputs={n_out} (expected {emits}) terminal={termev} pulls_at_return={pulls_ret} case={case}"
     )
     if runaway:
         if cfg.startswith("immediate"):
@@ -600,6 +633,9 @@ def _run_inner(case):
             sig = f"no-return:not-cancelled|{src}"
     else:
         sig = f"{symptom}|{term[0]}"
+    if k and not (runaway and (cfg.startswith("immediate") or cfg.startswith("ct_fresh"))):
+        # a later subscription of the same object fails although the first one held: state shared between subscriptions
+        sig = f"{sig.split('|')[0]}|{term[0]}:{_ORD.get(k, str(k + 1) + 'th')}-subscription"
     return FAIL(sig, detail, nontrivial=n >= 1, classes=cls)
 
 
@@ -620,7 +656,10 @@ def _product(tier):
                 for cfg in _configs_for(src):
                     ews = [EW_SAMPLES[idx % len(EW_SAMPLES)]] if tier == "quick" else [EW_SAMPLES[idx % len(EW_SAMPLES)], EW_SAMPLES[(idx + 4) % len(EW_SAMPLES)]]
                     for ew in ews:
-                        yield {"src": src, "ew": ew, "wrap": wrap, "term": term, "cfg": cfg}
+                        c = {"src": src, "ew": ew, "wrap": wrap, "term": term, "cfg": cfg}
+                        if (idx + idx // 4 + idx // 28) % 4 == 0:
+                            c["resub"] = 2
+                        yield c
                     idx += 1
 
 
@@ -669,6 +708,7 @@ def _deep(draw):
         "wrap": draw(st.sampled_from(WRAPS)),
         "term": draw(_term_s()),
         "cfg": draw(st.sampled_from(weighted)),
+        "resub": draw(st.sampled_from([0, 0, 0, 0, 0, 0, 1, 2])),
     }
 
 
